@@ -198,6 +198,8 @@ class VirtualTimeScheduler(PeriodicScheduler):
 
         with self._lock:
             self._is_enabled = False
+            if self.now > dt:
+                return
             if isinstance(self._clock, datetime):
                 self._clock = dt
             else:
